@@ -588,9 +588,16 @@ def overused_constant(source: str, *, root_is_static: bool) -> str:
 
         common_scopes = set.intersection(*(scope_node_definitions[node] for node in nodes))
 
-        # root is a Module and has no lineno
+        # root is a Module and has no lineno. It contains every other scope, also one on line 1,
+        # and the choice must not depend on the order of a set.
         best_common_scope = max(
-            common_scopes, key=lambda node: getattr(node, "lineno", 1), default=root
+            common_scopes,
+            key=lambda node: (
+                not isinstance(node, ast.Module),
+                getattr(node, "lineno", 1),
+                getattr(node, "col_offset", 0),
+            ),
+            default=root,
         )
         nodes = list(nodes)
         if (
